@@ -113,7 +113,26 @@ def _core_rooted(e: ast.AST, fn_node: Optional[ast.AST], depth: int = 0) -> bool
         return isinstance(v0, ast.FormattedValue) and _core_rooted(v0.value, fn_node, depth)
     if isinstance(e, ast.Name) and depth < 3:
         defs = _local_def(fn_node, e.id)
-        return bool(defs) and all(_core_rooted(x, fn_node, depth + 1) for x in defs)
+        if defs:
+            return all(_core_rooted(x, fn_node, depth + 1) for x in defs)
+        # a parameter of a private helper: what every call site in the same module passes for it
+        if isinstance(fn_node, (ast.FunctionDef, ast.AsyncFunctionDef)) and e.id in [a.arg for a in fn_node.args.args + fn_node.args.kwonlyargs]:
+            root = fn_node
+            while parent(root) is not None:
+                root = parent(root)  # type: ignore[assignment]
+            params = [a.arg for a in fn_node.args.args if a.arg not in ("self", "cls")]
+            sites = []
+            for c in ast.walk(root):
+                if isinstance(c, ast.Call) and ((isinstance(c.func, ast.Attribute) and c.func.attr == fn_node.name) or (isinstance(c.func, ast.Name) and c.func.id == fn_node.name)):
+                    arg = None
+                    if e.id in params and params.index(e.id) < len(c.args):
+                        arg = c.args[params.index(e.id)]
+                    for k in c.keywords:
+                        if k.arg == e.id:
+                            arg = k.value
+                    sites.append((arg, _enclosing_fn(c)))
+            return bool(sites) and all(a is not None and _core_rooted(a, f_, depth + 1) for a, f_ in sites)
+        return False
     if isinstance(e, ast.BinOp) and isinstance(e.op, ast.Add):
         return _core_rooted(e.left, fn_node, depth)
     if isinstance(e, ast.IfExp):
